@@ -703,10 +703,11 @@ def _serve_one(repo, payload, env=None, add=None, get=None, raising=None):
 
     models = dict(MODELS)
     models[f"{SRV}.receive"] = m_receive
+    from .common import model_ret
     if add is not None:
-        models[f"{DS}.Manager.add"] = lambda run, a, k, n, f: add
+        models[f"{DS}.Manager.add"] = lambda run, a, k, n, f: model_ret(repo, f"{DS}.Manager.add", add)
     if get is not None:
-        models[f"{DS}.Manager.get"] = lambda run, a, k, n, f: get
+        models[f"{DS}.Manager.get"] = lambda run, a, k, n, f: model_ret(repo, f"{DS}.Manager.get", get)
     e = {"self.manager.free_space": 77, "self.manager.datasets": {}}
     e.update(env or {})
     ip = Interp(repo, call_models=models, opaque={f"{SRV}.respond", f"{DS}.Manager.close_callback", f"{DS}.Manager.purge"},
